@@ -177,6 +177,33 @@ func c09(c *ctx) {
 			}
 		}
 	}
+	// an Upgrade value that is "websocket" only under Unicode case folding
+	for rep := 0; rep < 6; rep++ {
+		for _, api := range apis {
+			q := base
+			q.Upgrade = "unifold"
+			q.Extra = rep%2 == 0
+			emit(fmt.Sprintf("unifold/%s/%d", api, rep), api, q, plain)
+		}
+	}
+	// two Sec-WebSocket-Version lines that contradict each other (through the zero-copy upgrader, which sees
+	// every line; net/http hands HTTPUpgrader the first value only: left open there)
+	for rep := 0; rep < 12; rep++ {
+		for _, broken := range []string{"", "key", "upgrade"} {
+			for _, api := range []string{"Upgrader", "Upgrade"} {
+				q := base
+				q.WsVersion = "contra"
+				q.Extra = rep%2 == 0
+				switch broken {
+				case "key":
+					q.Key = "len23"
+				case "upgrade":
+					q.Upgrade = "absent"
+				}
+				emit(fmt.Sprintf("contra/%s/%s/%d", api, broken, rep), api, q, plain)
+			}
+		}
+	}
 	// an extension header that breaks the grammar after well-formed items, and right after it (same
 	// goroutine: whatever the library pools comes straight back) a compliant request offering something
 	// else to a negotiator that would also accept the earlier items
